@@ -1,4 +1,5 @@
 import TaskModel.Remote.Lemmas
+import TaskModel.Remote.Chain
 import TaskModel.Remote.Tie
 /-!
 # C20 — Remote Taskfiles: nothing unapproved runs, and the cache keeps tasks runnable
@@ -8,6 +9,10 @@ fallback rule of fix F16), helper lemmas are in `TaskModel.Remote.Lemmas`, the t
 source text is `TaskModel.Remote.Tie` (`remote_skeleton_ok` …, regenerated on every run)
 plus the correspondence domain `remote` (harness/remote.go: the real CLI against a loopback
 HTTP server over sequences of server states × flags × prompt answers).
+
+The second part (from "Chains" on) lifts every property to invocations that read a remote
+Taskfile *and* the remote Taskfile it includes, under the one `--timeout` deadline of the
+invocation (`TaskModel.Remote.Chain`, `invokeChain`; driver op `remote.chain`).
 
 All statements are over **arbitrary histories** (`List Step`, no length bound) starting
 from the empty cache, and over an arbitrary checksum function `sha` — nothing is assumed
@@ -545,5 +550,664 @@ example : Unavailable stRefused ∧ Unavailable stStalled ∧ Unavailable stAged
 example : ((reach id [stGet]).ent 0).content = some 1 := by decide
 -- no cache: refused 103, stalled 108, offline 106
 example : (run id RState.init [stRefused, stStalled, stOffline]).1 = [.error 103, .error 108, .error 106] := by decide
+
+/-! # Chains: one invocation reads a remote Taskfile *and* the remote Taskfile it includes
+
+`TaskModel.Remote.Chain`: `invokeChain sha inc s st` — node 1 as above, then, if the content
+node 1 yields includes a remote Taskfile (`inc c1 = some u2`), node 2 = `u2`, read by the same
+`readRemote` against its own cache entry, its own server behaviour and its own prompt answer,
+under the **one `--timeout` deadline of the invocation**: once node 1's fetch has timed out the
+deadline has passed (`spent1`), and node 2's fetch comes back `timedOut` at once, whatever its
+server would do (`net2`).  `inc` is a parameter like `sha`: nothing is assumed about it.
+All statements below are for arbitrary histories of such invocations (`reachChain`). -/
+
+theorem inv_after1 (legacy sha s st) (h : Inv sha s) : Inv sha (after1 legacy sha s st) := by
+  intro v
+  by_cases hv : v = st.base.url.id
+  · subst hv; rw [after1_ent_same]; exact readRemote_EInv _ _ _ _ _ _ _ (h _)
+  · rw [after1_ent_other _ _ _ _ _ hv]; exact h v
+
+theorem inv_after2 (legacy sha s st u2) (h : Inv sha s) : Inv sha (after2 legacy sha s st u2) := by
+  intro v
+  have h1 := inv_after1 legacy sha s st h
+  by_cases hv : v = u2.id
+  · subst hv; simp only [after2, set_ent_same]; exact readRemote_EInv _ _ _ _ _ _ _ (h1 _)
+  · simp only [after2, set_ent_other _ _ _ _ hv]; exact h1 v
+
+theorem inv_finish (sha) (f : RFlags) (r s) (h : Inv sha s) : Inv sha (finish f r s).2 := by
+  cases hc : f.clearCache with
+  | false => rw [finish_keep _ _ _ hc]; exact h
+  | true => rw [finish_clear _ _ _ hc]; intro v; exact EInv_empty sha
+
+theorem inv_invokeChainWith (legacy sha inc s st) (h : Inv sha s) :
+    Inv sha (invokeChainWith legacy sha inc s st).2 := by
+  cases shape legacy sha inc s st with
+  | gated code _ he => rw [he]; exact h
+  | err1 _ _ he => rw [he]; exact inv_after1 _ _ _ _ h
+  | single c1 _ _ _ he => rw [he]; exact inv_finish _ _ _ _ (inv_after1 _ _ _ _ h)
+  | cycle c1 u2 _ _ _ _ he => rw [he]; exact inv_after1 _ _ _ _ h
+  | gated2 c1 u2 code _ _ _ _ _ he => rw [he]; exact inv_after1 _ _ _ _ h
+  | err2 c1 u2 _ _ _ _ _ _ he => rw [he]; exact inv_after2 _ _ _ _ _ h
+  | both c1 u2 c2 _ _ _ _ _ _ he => rw [he]; exact inv_finish _ _ _ _ (inv_after2 _ _ _ _ _ h)
+
+theorem inv_runChainWith (legacy sha inc) (h : List CStep) :
+    ∀ s, Inv sha s → Inv sha (runChainWith legacy sha inc s h).2 := by
+  induction h with
+  | nil => intro s hs; exact hs
+  | cons st rest ih =>
+    intro s hs
+    simp only [runChainWith]
+    exact ih _ (inv_invokeChainWith legacy sha inc s st hs)
+
+/-- the invariant (a cached copy is one whose checksum is the approved one) holds after every
+history of chain invocations, for every entry — node 1's and node 2's alike -/
+theorem inv_reachChain (sha inc) (h : List CStep) : Inv sha (reachChain sha inc h) :=
+  inv_runChainWith false sha inc h _ (inv_init sha)
+
+/-! ## Per-node facts used for both nodes -/
+
+/-- what a node hands on has the stored checksum afterwards, and that checksum was stored
+before or is approved in this very read -/
+theorem node_trust (legacy sha now e f n a c) (hi : EInv sha e)
+    (h : (readRemote legacy sha now e f n a).1 = .run c) :
+    (readRemote legacy sha now e f n a).2.sum = some (sha c) ∧
+    (e.sum = some (sha c) ∨ approves f a = true) := by
+  rcases readRemote_spec legacy sha now e f n a with ⟨h1, h2⟩ | ⟨_, c', _, h2, h3, h4⟩
+  · have hc := hi c (h2 c h)
+    rw [h1]; exact ⟨hc, Or.inl hc⟩
+  · rw [h2] at h; cases h
+    rw [h3]; exact ⟨rfl, h4⟩
+
+/-- a node's entry changes only by the three writes of downloaded content whose checksum was
+the stored one already or is approved in this very read -/
+theorem node_write (legacy sha now e f n a) (h : (readRemote legacy sha now e f n a).2 ≠ e) :
+    ∃ c, n = .content c ∧ (readRemote legacy sha now e f n a).1 = .run c ∧
+      (readRemote legacy sha now e f n a).2 = written sha now e c ∧
+      (e.sum = some (sha c) ∨ approves f a = true) := by
+  rcases readRemote_spec legacy sha now e f n a with ⟨h1, _⟩ | ⟨_, c, hn, h2, h3, h4⟩
+  · exact absurd h1 h
+  · exact ⟨c, hn, h2, h3, h4⟩
+
+/-- new or changed content without approval: 104, entry untouched -/
+theorem node_unapproved (legacy sha now e f n a c) (hw : wantsFetch now e f = true)
+    (hn : n = .content c) (hs : e.sum ≠ some (sha c)) (ha : approves f a = false) :
+    readRemote legacy sha now e f n a = (.error 104, e) := by
+  rw [readRemote_of_wantsFetch _ _ _ _ _ _ _ hw, hn]
+  have hp : needsPrompt e (sha c) = true := by
+    cases hp : needsPrompt e (sha c) with
+    | true => rfl
+    | false => exact absurd ((needsPrompt_false_iff _ _).mp hp) hs
+  simp [fetch, hp, ha]
+
+/-- **availability of one node** (repaired rule): whenever the fetch gives no content — refused,
+HTTP error, stalled past `--timeout`, *or the shared deadline had passed before the read began* —
+or no fetch is made at all, a cached copy is what the node yields, and its entry stays as it is -/
+theorem node_available (sha now e f n a c) (hu : ∀ c', n ≠ .content c') (hc : e.content = some c) :
+    readRemote false sha now e f n a = (.run c, e) := by
+  cases hw : wantsFetch now e f with
+  | false => rw [readRemote_of_not_wantsFetch _ _ _ _ _ _ _ hw, hc]
+  | true =>
+    rw [readRemote_of_wantsFetch _ _ _ _ _ _ _ hw, hc]
+    cases n with
+    | content c' => exact absurd rfl (hu c')
+    | timedOut => simp [fetch]
+    | failed k => simp [fetch]
+
+/-- `--offline` (with the `--download` that `flags.Validate` then forbids off): the network
+outcome and the answer are not looked at -/
+theorem node_offline (legacy sha now e f n a) (ho : f.offline = true) (hd : f.download = false) :
+    readRemote legacy sha now e f n a = (match e.content with | some c => .run c | none => .error 106, e) := by
+  apply readRemote_of_not_wantsFetch
+  unfold wantsFetch
+  cases e.content <;> simp [ho, hd]
+
+theorem spent_offline (now e) (f : RFlags) (n) (ho : f.offline = true) (hd : f.download = false) :
+    spent now e f n = false := by
+  unfold spent wantsFetch
+  cases n <;> cases e.content <;> simp [ho, hd]
+
+theorem liftErr_ne_run (r : RResult) (h : ∀ c, r ≠ .run c) (c1 c2) : liftErr r ≠ .run c1 c2 := by
+  cases r with
+  | run c => exact absurd rfl (h c)
+  | cleared => intro h'; cases h'
+  | error code => intro h'; cases h'
+
+theorem liftErr_ne_cleared (r : RResult) (h : r ≠ .cleared) : liftErr r ≠ .cleared := by
+  cases r with
+  | run c => intro h'; cases h'
+  | cleared => exact absurd rfl h
+  | error code => intro h'; cases h'
+
+theorem after2_ent_same (legacy sha s st u2) :
+    (after2 legacy sha s st u2).ent u2.id = (read2 legacy sha s st u2).2 := by
+  simp [after2]
+
+theorem after2_ent_other (legacy sha s st u2 v) (hv : v ≠ u2.id) :
+    (after2 legacy sha s st u2).ent v = (after1 legacy sha s st).ent v := by
+  simp [after2, set_ent_other _ _ _ _ hv]
+
+/-! ## Cache writes only after trust — for both nodes -/
+
+/-- node 1's entry now holds the three writes of content its server gave, whose checksum was
+the stored one already or was approved (`--yes` / node 1's prompt accepted) in this invocation -/
+def Wrote1 (sha : Content → Sum) (s : RState) (st : CStep) (v : Nat) (e : Entry) : Prop :=
+  v = st.base.url.id ∧ ∃ c, net st.base.flags st.base.server = .content c ∧
+    e = written sha (s.now + st.base.dt) (s.ent v) c ∧
+    ((s.ent v).sum = some (sha c) ∨ approves st.base.flags st.base.answer = true)
+
+/-- the same for node 2: it was read (node 1 yielded content that includes it), the deadline had
+not passed, its server gave content, the checksum was known or node 2's own prompt was accepted -/
+def Wrote2 (legacy : Bool) (sha : Content → Sum) (inc : Content → Option Url) (s : RState) (st : CStep)
+    (v : Nat) (e : Entry) : Prop :=
+  ∃ c1 u2, (read1 legacy sha s st).1 = .run c1 ∧ inc c1 = some u2 ∧ v = u2.id ∧ v ≠ st.base.url.id ∧
+    spent1 s st = false ∧ ∃ c, net st.base.flags st.hop.server = .content c ∧
+    e = written sha (s.now + st.base.dt) (s.ent v) c ∧
+    ((s.ent v).sum = some (sha c) ∨ approves st.base.flags st.hop.answer = true)
+
+theorem net2_content (sp : Bool) (f sv c) (h : net2 sp f sv = .content c) : sp = false ∧ net f sv = .content c := by
+  unfold net2 at h
+  cases sp with
+  | true => simp at h
+  | false => exact ⟨rfl, by simpa using h⟩
+
+theorem after1_change (legacy sha s st v) (h : (after1 legacy sha s st).ent v ≠ s.ent v) :
+    Wrote1 sha s st v ((after1 legacy sha s st).ent v) := by
+  by_cases hv : v = st.base.url.id
+  · subst hv
+    rw [after1_ent_same] at h ⊢
+    obtain ⟨c, hn, _, hw, ha⟩ := node_write _ _ _ _ _ _ _ h
+    exact ⟨rfl, c, hn, hw, ha⟩
+  · exact absurd (after1_ent_other _ _ _ _ _ hv) h
+
+theorem after2_change (legacy sha inc s st c1 u2 v) (h1 : (read1 legacy sha s st).1 = .run c1)
+    (hi : inc c1 = some u2) (hu : u2.id ≠ st.base.url.id)
+    (h : (after2 legacy sha s st u2).ent v ≠ s.ent v) :
+    Wrote1 sha s st v ((after2 legacy sha s st u2).ent v) ∨
+    Wrote2 legacy sha inc s st v ((after2 legacy sha s st u2).ent v) := by
+  by_cases hv : v = u2.id
+  · subst hv
+    right
+    rw [after2_ent_same, read2_eq _ _ _ _ _ hu] at h ⊢
+    obtain ⟨c, hn, _, hw, ha⟩ := node_write _ _ _ _ _ _ _ h
+    obtain ⟨hsp, hn'⟩ := net2_content _ _ _ _ hn
+    exact ⟨c1, u2, h1, hi, rfl, hu, hsp, c, hn', hw, ha⟩
+  · left
+    rw [after2_ent_other _ _ _ _ _ _ hv] at h ⊢
+    exact after1_change _ _ _ _ _ h
+
+/-- **Cache written only after trust, for every node of the chain**: whatever entry differs after
+an invocation was either dropped by a successful `--clear-cache`, or is node 1's or node 2's and
+holds exactly the three writes of downloaded content whose checksum was already the approved
+one or was approved — by `--yes` or by *that node's* accepted prompt — in this invocation. -/
+theorem chain_write_spec (legacy sha inc s st v)
+    (h : (invokeChainWith legacy sha inc s st).2.ent v ≠ s.ent v) :
+    (st.base.flags.clearCache = true ∧ (invokeChainWith legacy sha inc s st).1 = .cleared ∧
+      (invokeChainWith legacy sha inc s st).2.ent v = Entry.empty) ∨
+    Wrote1 sha s st v ((invokeChainWith legacy sha inc s st).2.ent v) ∨
+    Wrote2 legacy sha inc s st v ((invokeChainWith legacy sha inc s st).2.ent v) := by
+  cases shape legacy sha inc s st with
+  | gated code _ he => rw [he] at h; exact absurd rfl h
+  | err1 _ _ he => rw [he] at h ⊢; exact Or.inr (Or.inl (after1_change _ _ _ _ _ h))
+  | cycle c1 u2 _ _ _ _ he => rw [he] at h ⊢; exact Or.inr (Or.inl (after1_change _ _ _ _ _ h))
+  | gated2 c1 u2 code _ _ _ _ _ he => rw [he] at h ⊢; exact Or.inr (Or.inl (after1_change _ _ _ _ _ h))
+  | single c1 _ _ _ he =>
+    rw [he] at h ⊢
+    cases hc : st.base.flags.clearCache with
+    | false =>
+      rw [finish_keep _ _ _ hc] at h ⊢; exact Or.inr (Or.inl (after1_change _ _ _ _ _ h))
+    | true => rw [finish_clear _ _ _ hc]; exact Or.inl ⟨rfl, rfl, rfl⟩
+  | err2 c1 u2 _ h1 hi hu _ _ he =>
+    rw [he] at h ⊢; exact Or.inr (after2_change _ _ _ _ _ _ _ _ h1 hi hu h)
+  | both c1 u2 c2 _ h1 hi hu _ _ he =>
+    rw [he] at h ⊢
+    cases hc : st.base.flags.clearCache with
+    | false =>
+      rw [finish_keep _ _ _ hc] at h ⊢; exact Or.inr (after2_change _ _ _ _ _ _ _ _ h1 hi hu h)
+    | true => rw [finish_clear _ _ _ hc]; exact Or.inl ⟨rfl, rfl, rfl⟩
+
+/-! ## Trust -/
+
+/-- What C20 demands of one chain invocation `st` made in state `s`. -/
+structure TrustChain (sha : Content → Sum) (inc : Content → Option Url) (s : RState) (st : CStep) : Prop where
+  /-- node 1's content handed on for execution has the checksum that is the approved one for its
+  URL at that moment, approved before or in this very invocation (`--yes` / node 1's prompt) -/
+  ran1_is_approved : ∀ c1 c2, (invokeChain sha inc s st).1 = .run c1 c2 →
+    ((invokeChain sha inc s st).2.ent st.base.url.id).sum = some (sha c1) ∧
+    ((s.ent st.base.url.id).sum = some (sha c1) ∨ approves st.base.flags st.base.answer = true)
+  /-- node 2's content handed on for execution is that of the URL node 1's content includes, has
+  the checksum that is the approved one for *that* URL, approved before or in this very invocation
+  (`--yes` / node 2's own prompt) -/
+  ran2_is_approved : ∀ c1 c2, (invokeChain sha inc s st).1 = .run c1 (some c2) →
+    ∃ u2, inc c1 = some u2 ∧ u2.id ≠ st.base.url.id ∧
+      ((invokeChain sha inc s st).2.ent u2.id).sum = some (sha c2) ∧
+      ((s.ent u2.id).sum = some (sha c2) ∨ approves st.base.flags st.hop.answer = true)
+  /-- node 1's content runs alone only if it includes nothing remote -/
+  ran_alone : ∀ c1, (invokeChain sha inc s st).1 = .run c1 none → inc c1 = none
+  /-- cache files are written only after trust, for both nodes (`chain_write_spec`) -/
+  written_after_trust : ∀ v, (invokeChain sha inc s st).2.ent v ≠ s.ent v →
+    (st.base.flags.clearCache = true ∧ (invokeChain sha inc s st).1 = .cleared ∧
+      (invokeChain sha inc s st).2.ent v = Entry.empty) ∨
+    Wrote1 sha s st v ((invokeChain sha inc s st).2.ent v) ∨
+    Wrote2 false sha inc s st v ((invokeChain sha inc s st).2.ent v)
+  /-- the approved checksum of any URL changes only to the checksum of content downloaded in this
+  invocation for that URL as node 1 or node 2, under `--yes` or that node's accepted prompt — or
+  the whole cache is dropped by `--clear-cache` -/
+  change_needs_approval : ∀ v, ((invokeChain sha inc s st).2.ent v).sum ≠ (s.ent v).sum →
+    (st.base.flags.clearCache = true ∧ (invokeChain sha inc s st).1 = .cleared) ∨
+    (v = st.base.url.id ∧ approves st.base.flags st.base.answer = true ∧
+      ∃ c, net st.base.flags st.base.server = .content c ∧
+        ((invokeChain sha inc s st).2.ent v).sum = some (sha c)) ∨
+    (v ≠ st.base.url.id ∧ approves st.base.flags st.hop.answer = true ∧
+      ∃ c1 u2 c, (read1 false sha s st).1 = .run c1 ∧ inc c1 = some u2 ∧ v = u2.id ∧
+        net st.base.flags st.hop.server = .content c ∧
+        ((invokeChain sha inc s st).2.ent v).sum = some (sha c))
+  /-- node 1 offers new or changed content without approval: 104, node 2 is not read, no cache
+  file of any URL touched -/
+  unapproved1_refused : ∀ c, gate st.base = none →
+    wantsFetch (s.now + st.base.dt) (s.ent st.base.url.id) st.base.flags = true →
+    net st.base.flags st.base.server = .content c → (s.ent st.base.url.id).sum ≠ some (sha c) →
+    approves st.base.flags st.base.answer = false →
+    (invokeChain sha inc s st).1 = .error 104 ∧ ∀ v, (invokeChain sha inc s st).2.ent v = s.ent v
+  /-- node 2 offers new or changed content without approval: 104, **nothing runs — not node 1's
+  content either** — and no cache file other than node 1's is touched -/
+  unapproved2_refused : ∀ c1 u2 c, gate st.base = none → (read1 false sha s st).1 = .run c1 →
+    inc c1 = some u2 → u2.id ≠ st.base.url.id → gate2 st.base.flags u2 = none →
+    wantsFetch (s.now + st.base.dt) (s.ent u2.id) st.base.flags = true →
+    net2 (spent1 s st) st.base.flags st.hop.server = .content c → (s.ent u2.id).sum ≠ some (sha c) →
+    approves st.base.flags st.hop.answer = false →
+    (invokeChain sha inc s st).1 = .error 104 ∧
+      ∀ v, v ≠ st.base.url.id → (invokeChain sha inc s st).2.ent v = s.ent v
+
+theorem chain_ran (legacy sha inc s st) (hi : Inv sha s) (c1 : Content) (c2 : Option Content)
+    (h : (invokeChainWith legacy sha inc s st).1 = .run c1 c2) :
+    (((invokeChainWith legacy sha inc s st).2.ent st.base.url.id).sum = some (sha c1) ∧
+      ((s.ent st.base.url.id).sum = some (sha c1) ∨ approves st.base.flags st.base.answer = true)) ∧
+    (c2 = none → inc c1 = none) ∧
+    (∀ c2', c2 = some c2' → ∃ u2, inc c1 = some u2 ∧ u2.id ≠ st.base.url.id ∧
+      ((invokeChainWith legacy sha inc s st).2.ent u2.id).sum = some (sha c2') ∧
+      ((s.ent u2.id).sum = some (sha c2') ∨ approves st.base.flags st.hop.answer = true)) := by
+  have t1 : ∀ c, (read1 legacy sha s st).1 = .run c →
+      (read1 legacy sha s st).2.sum = some (sha c) ∧
+      ((s.ent st.base.url.id).sum = some (sha c) ∨ approves st.base.flags st.base.answer = true) :=
+    fun c hc => node_trust _ _ _ _ _ _ _ c (hi _) hc
+  cases shape legacy sha inc s st with
+  | gated code _ he => rw [he] at h; cases h
+  | err1 _ hn he => rw [he] at h; exact absurd h (liftErr_ne_run _ hn _ _)
+  | cycle c1' u2 _ _ _ _ he => rw [he] at h; cases h
+  | gated2 c1' u2 code _ _ _ _ _ he => rw [he] at h; cases h
+  | err2 c1' u2 _ _ _ _ _ hn he => rw [he] at h; exact absurd h (liftErr_ne_run _ hn _ _)
+  | single c1' _ h1 hinc he =>
+    rw [he] at h ⊢
+    cases hc : st.base.flags.clearCache with
+    | true => rw [finish_clear _ _ _ hc] at h; cases h
+    | false =>
+      rw [finish_keep _ _ _ hc] at h ⊢
+      cases h
+      refine ⟨?_, fun _ => hinc, fun c2' h' => (by cases h')⟩
+      simp only [after1_ent_same]
+      exact t1 c1 h1
+  | both c1' u2 c2' _ h1 hinc hu _ h2 he =>
+    rw [he] at h ⊢
+    cases hc : st.base.flags.clearCache with
+    | true => rw [finish_clear _ _ _ hc] at h; cases h
+    | false =>
+      rw [finish_keep _ _ _ hc] at h ⊢
+      cases h
+      refine ⟨?_, fun h' => (by cases h'), fun c2'' h' => ?_⟩
+      · rw [after2_ent_other _ _ _ _ _ _ (Ne.symm hu), after1_ent_same]
+        exact t1 c1 h1
+      · cases h'
+        refine ⟨u2, hinc, hu, ?_⟩
+        rw [after2_ent_same]
+        have h2' := h2
+        rw [read2_eq _ _ _ _ _ hu] at h2' ⊢
+        exact node_trust _ _ _ _ _ _ _ _ (hi _) h2'
+
+theorem chain_change (legacy sha inc s st v)
+    (h : ((invokeChainWith legacy sha inc s st).2.ent v).sum ≠ (s.ent v).sum) :
+    (st.base.flags.clearCache = true ∧ (invokeChainWith legacy sha inc s st).1 = .cleared) ∨
+    (v = st.base.url.id ∧ approves st.base.flags st.base.answer = true ∧
+      ∃ c, net st.base.flags st.base.server = .content c ∧
+        ((invokeChainWith legacy sha inc s st).2.ent v).sum = some (sha c)) ∨
+    (v ≠ st.base.url.id ∧ approves st.base.flags st.hop.answer = true ∧
+      ∃ c1 u2 c, (read1 legacy sha s st).1 = .run c1 ∧ inc c1 = some u2 ∧ v = u2.id ∧
+        net st.base.flags st.hop.server = .content c ∧
+        ((invokeChainWith legacy sha inc s st).2.ent v).sum = some (sha c)) := by
+  have hne : (invokeChainWith legacy sha inc s st).2.ent v ≠ s.ent v := by
+    intro he; rw [he] at h; exact h rfl
+  rcases chain_write_spec legacy sha inc s st v hne with ⟨hc, hr, _⟩ | ⟨hv, c, hn, hw, ha⟩ |
+      ⟨c1, u2, h1, hi, hv, hvn, _, c, hn, hw, ha⟩
+  · exact Or.inl ⟨hc, hr⟩
+  · right; left
+    rw [hw] at h ⊢
+    refine ⟨hv, ?_, c, hn, rfl⟩
+    rcases ha with ha | ha
+    · simp only [written_sum] at h; exact absurd ha.symm h
+    · exact ha
+  · right; right
+    rw [hw] at h ⊢
+    refine ⟨hvn, ?_, c1, u2, c, h1, hi, hv, hn, rfl⟩
+    rcases ha with ha | ha
+    · simp only [written_sum] at h; exact absurd ha.symm h
+    · exact ha
+
+theorem chain_unapproved1 (legacy sha inc s st c) (hg : gate st.base = none)
+    (hw : wantsFetch (s.now + st.base.dt) (s.ent st.base.url.id) st.base.flags = true)
+    (hn : net st.base.flags st.base.server = .content c) (hs : (s.ent st.base.url.id).sum ≠ some (sha c))
+    (ha : approves st.base.flags st.base.answer = false) :
+    (invokeChainWith legacy sha inc s st).1 = .error 104 ∧
+      ∀ v, (invokeChainWith legacy sha inc s st).2.ent v = s.ent v := by
+  have hr : read1 legacy sha s st = (.error 104, s.ent st.base.url.id) :=
+    node_unapproved _ _ _ _ _ _ _ c hw hn hs ha
+  have h1 : ∀ c', (read1 legacy sha s st).1 ≠ .run c' := by intro c' hc; rw [hr] at hc; cases hc
+  rw [invokeChainWith_err1 _ _ _ _ _ hg h1, hr]
+  refine ⟨rfl, fun v => ?_⟩
+  by_cases hv : v = st.base.url.id
+  · subst hv; rw [after1_ent_same, hr]
+  · exact after1_ent_other _ _ _ _ _ hv
+
+theorem chain_unapproved2 (legacy sha inc s st c1 u2 c) (hg : gate st.base = none)
+    (h1 : (read1 legacy sha s st).1 = .run c1) (hi : inc c1 = some u2) (hu : u2.id ≠ st.base.url.id)
+    (hg2 : gate2 st.base.flags u2 = none)
+    (hw : wantsFetch (s.now + st.base.dt) (s.ent u2.id) st.base.flags = true)
+    (hn : net2 (spent1 s st) st.base.flags st.hop.server = .content c)
+    (hs : (s.ent u2.id).sum ≠ some (sha c)) (ha : approves st.base.flags st.hop.answer = false) :
+    (invokeChainWith legacy sha inc s st).1 = .error 104 ∧
+      ∀ v, v ≠ st.base.url.id → (invokeChainWith legacy sha inc s st).2.ent v = s.ent v := by
+  have hr : read2 legacy sha s st u2 = (.error 104, s.ent u2.id) := by
+    rw [read2_eq _ _ _ _ _ hu]; exact node_unapproved _ _ _ _ _ _ _ c hw hn hs ha
+  have h2 : ∀ c', (read2 legacy sha s st u2).1 ≠ .run c' := by intro c' hc; rw [hr] at hc; cases hc
+  rw [invokeChainWith_err2 _ _ _ _ _ _ _ hg h1 hi hu hg2 h2, hr]
+  refine ⟨rfl, fun v hv1 => ?_⟩
+  by_cases hv : v = u2.id
+  · subst hv; rw [after2_ent_same, hr]
+  · rw [after2_ent_other _ _ _ _ _ _ hv]; exact after1_ent_other _ _ _ _ _ hv1
+
+theorem trustChain (sha inc s st) (hi : Inv sha s) : TrustChain sha inc s st where
+  ran1_is_approved c1 c2 h := (chain_ran false sha inc s st hi c1 c2 h).1
+  ran2_is_approved c1 c2 h := (chain_ran false sha inc s st hi c1 (some c2) h).2.2 c2 rfl
+  ran_alone c1 h := (chain_ran false sha inc s st hi c1 none h).2.1 rfl
+  written_after_trust v h := chain_write_spec false sha inc s st v h
+  change_needs_approval v h := chain_change false sha inc s st v h
+  unapproved1_refused c hg hw hn hs ha := chain_unapproved1 false sha inc s st c hg hw hn hs ha
+  unapproved2_refused c1 u2 c hg h1 hinc hu hg2 hw hn hs ha :=
+    chain_unapproved2 false sha inc s st c1 u2 c hg h1 hinc hu hg2 hw hn hs ha
+
+/-- **C20_chain_trust**: after *every* history of chain invocations, whatever the next one is (any
+flags, any behaviour of either node's server, any answers, any `inc`, any `sha`): content of
+either node is handed on for execution only with the checksum approved for *its* URL; cache
+files and approved checksums change only after trust, node by node; unapproved new or changed
+content of either node ends in 104 with nothing run. -/
+theorem C20_chain_trust (sha : Content → Sum) (inc : Content → Option Url) (h : List CStep) (st : CStep) :
+    TrustChain sha inc (reachChain sha inc h) st :=
+  trustChain sha inc _ st (inv_reachChain sha inc h)
+
+def AlwaysChain (sha : Content → Sum) (inc : Content → Option Url) (P : RState → CStep → Prop) :
+    RState → List CStep → Prop
+  | _, [] => True
+  | s, st :: rest => P s st ∧ AlwaysChain sha inc P (invokeChain sha inc s st).2 rest
+
+/-- the same, for every step *inside* an arbitrary history -/
+theorem C20_chain_trust_always (sha : Content → Sum) (inc : Content → Option Url) (h : List CStep) :
+    AlwaysChain sha inc (TrustChain sha inc) RState.init h := by
+  suffices ∀ s, Inv sha s → AlwaysChain sha inc (TrustChain sha inc) s h from this _ (inv_init sha)
+  induction h with
+  | nil => intro _ _; trivial
+  | cons st rest ih =>
+    intro s hs
+    exact ⟨trustChain sha inc s st hs, ih _ (inv_invokeChainWith false sha inc s st hs)⟩
+
+/-- a chain whose contents include nothing remote is exactly the single-node invocation above -/
+theorem C20_chain_extends (sha : Content → Sum) (s : RState) (st : CStep) :
+    invokeChain sha (fun _ => none) s st = (liftResult (invoke sha s st.base).1, (invoke sha s st.base).2) :=
+  invokeChainWith_noinc false sha s st
+
+/-! ## Offline: no network use, for either node -/
+
+/-- **C20_chain_offline_no_network**: under `--offline` the outcome of the whole chain and the
+cache it leaves do not depend on what either server would do, nor on the answers: nothing is
+asked of the network and nobody is prompted. -/
+theorem C20_chain_offline_no_network (sha : Content → Sum) (inc : Content → Option Url) (s : RState)
+    (st st' : CStep) (ho : st.base.flags.offline = true)
+    (hdt : st'.base.dt = st.base.dt) (hurl : st'.base.url = st.base.url) (hf : st'.base.flags = st.base.flags) :
+    invokeChain sha inc s st' = invokeChain sha inc s st := by
+  have hgate : gate st'.base = gate st.base := by simp [gate, hurl, hf]
+  cases hg : gate st.base with
+  | some code =>
+    unfold invokeChain
+    rw [invokeChainWith_gate _ _ _ _ _ _ hg, invokeChainWith_gate _ _ _ _ _ _ (hgate.trans hg), hdt]
+  | none =>
+    have hd : st.base.flags.download = false := by
+      have hok := ((gate_none_iff st.base).mp hg).1
+      cases hd : st.base.flags.download with
+      | false => rfl
+      | true => simp [flagsOk, hd, ho] at hok
+    unfold invokeChain invokeChainWith
+    simp only [hgate, hg, hdt, hurl, hf, hopRead, node_offline _ _ _ _ _ _ _ ho hd, spent_offline _ _ _ _ ho hd]
+
+/-- **C20_chain_offline**: with cached copies `c1` of node 1 and — if `c1` includes a remote
+Taskfile — `c2` of that one (approved ones, by the invariant), `--offline` runs exactly these, for
+every expiry, clock, server behaviour and answer, and touches nothing. -/
+theorem C20_chain_offline (sha : Content → Sum) (inc : Content → Option Url) (h : List CStep) (st : CStep)
+    (c1 : Content) (hg : gate st.base = none) (ho : st.base.flags.offline = true)
+    (hcl : st.base.flags.clearCache = false)
+    (hc1 : ((reachChain sha inc h).ent st.base.url.id).content = some c1) :
+    ((reachChain sha inc h).ent st.base.url.id).sum = some (sha c1) ∧
+    (inc c1 = none →
+      (invokeChain sha inc (reachChain sha inc h) st).1 = .run c1 none ∧
+      ∀ v, (invokeChain sha inc (reachChain sha inc h) st).2.ent v = (reachChain sha inc h).ent v) ∧
+    (∀ u2 c2, inc c1 = some u2 → u2.id ≠ st.base.url.id → gate2 st.base.flags u2 = none →
+      ((reachChain sha inc h).ent u2.id).content = some c2 →
+      (invokeChain sha inc (reachChain sha inc h) st).1 = .run c1 (some c2) ∧
+      ((reachChain sha inc h).ent u2.id).sum = some (sha c2) ∧
+      ∀ v, (invokeChain sha inc (reachChain sha inc h) st).2.ent v = (reachChain sha inc h).ent v) ∧
+    (∀ u2, inc c1 = some u2 → u2.id ≠ st.base.url.id → gate2 st.base.flags u2 = none →
+      ((reachChain sha inc h).ent u2.id).content = none →
+      (invokeChain sha inc (reachChain sha inc h) st).1 = .error 106) := by
+  generalize hs : reachChain sha inc h = s at *
+  have hinv : Inv sha s := hs ▸ inv_reachChain sha inc h
+  have hd : st.base.flags.download = false := by
+    have hok := ((gate_none_iff st.base).mp hg).1
+    cases hd : st.base.flags.download with
+    | false => rfl
+    | true => simp [flagsOk, hd, ho] at hok
+  have hr1 : read1 false sha s st = (.run c1, s.ent st.base.url.id) := by
+    show readRemote _ _ _ _ _ _ _ = _
+    rw [node_offline _ _ _ _ _ _ _ ho hd, hc1]
+  have h1 : (read1 false sha s st).1 = .run c1 := by rw [hr1]
+  have hsame1 : ∀ v, (after1 false sha s st).ent v = s.ent v := by
+    intro v
+    by_cases hv : v = st.base.url.id
+    · subst hv; rw [after1_ent_same, hr1]
+    · exact after1_ent_other _ _ _ _ _ hv
+  refine ⟨hinv _ c1 hc1, ?_, ?_, ?_⟩
+  · intro hi
+    unfold invokeChain
+    rw [invokeChainWith_single _ _ _ _ _ c1 hg h1 hi, finish_keep _ _ _ hcl]
+    exact ⟨rfl, hsame1⟩
+  · intro u2 c2 hi hu hg2 hc2
+    have hr2 : read2 false sha s st u2 = (.run c2, s.ent u2.id) := by
+      rw [read2_eq _ _ _ _ _ hu, node_offline _ _ _ _ _ _ _ ho hd, hc2]
+    have h2 : (read2 false sha s st u2).1 = .run c2 := by rw [hr2]
+    unfold invokeChain
+    rw [invokeChainWith_both _ _ _ _ _ c1 u2 c2 hg h1 hi hu hg2 h2, finish_keep _ _ _ hcl]
+    refine ⟨rfl, hinv _ c2 hc2, fun v => ?_⟩
+    by_cases hv : v = u2.id
+    · subst hv; rw [after2_ent_same, hr2]
+    · rw [after2_ent_other _ _ _ _ _ _ hv]; exact hsame1 v
+  · intro u2 hi hu hg2 hc2
+    have hr2 : read2 false sha s st u2 = (.error 106, s.ent u2.id) := by
+      rw [read2_eq _ _ _ _ _ hu, node_offline _ _ _ _ _ _ _ ho hd, hc2]
+    have h2 : ∀ c, (read2 false sha s st u2).1 ≠ .run c := by intro c hc; rw [hr2] at hc; cases hc
+    unfold invokeChain
+    rw [invokeChainWith_err2 _ _ _ _ _ c1 u2 hg h1 hi hu hg2 h2, hr2]
+    rfl
+
+/-! ## Availability, for every node of the chain -/
+
+/-- node 2's fetch gives no content: its server refuses / answers an HTTP error / stalls past
+`--timeout`, **or the shared deadline had passed before its read began** -/
+def Unavailable2 (s : RState) (st : CStep) : Prop :=
+  ∀ c, net2 (spent1 s st) st.base.flags st.hop.server ≠ .content c
+
+theorem unavailable2_of_spent (s st) (h : spent1 s st = true) : Unavailable2 s st := by
+  intro c hc; unfold net2 at hc; rw [h] at hc; cases hc
+
+theorem unavailable2_of_server (s st) (h : ∀ c, net st.base.flags st.hop.server ≠ .content c) :
+    Unavailable2 s st := by
+  intro c hc
+  exact h c (net2_content _ _ _ _ hc).2
+
+/-- **Availability of node 1** inside a chain: unavailable network + cached copy ⇒ node 1 yields
+that copy (the load goes on with it), entry untouched. -/
+theorem C20_chain_available_node1 (sha : Content → Sum) (s : RState) (st : CStep) (c1 : Content)
+    (hu : Unavailable st.base) (hc : (s.ent st.base.url.id).content = some c1) :
+    read1 false sha s st = (.run c1, s.ent st.base.url.id) :=
+  node_available _ _ _ _ _ _ c1 hu hc
+
+/-- **Availability of node 2**: however node 1 came by the content `c1` that includes `u2` (cache or
+download), if node 2's fetch gives no content for *any* network reason — including the shared
+deadline already used up by node 1 — and a copy `c2` of `u2` is cached, then `c1` and `c2` run and
+node 2's cache entry stays as it is.  (This is the statement an early `ctx.Err()` return at the top
+of `readRemoteNodeContent` falsifies.) -/
+theorem C20_chain_available_node2 (sha : Content → Sum) (inc : Content → Option Url) (s : RState)
+    (st : CStep) (c1 c2 : Content) (u2 : Url)
+    (hg : gate st.base = none) (hcl : st.base.flags.clearCache = false)
+    (h1 : (read1 false sha s st).1 = .run c1) (hi : inc c1 = some u2) (hu : u2.id ≠ st.base.url.id)
+    (hg2 : gate2 st.base.flags u2 = none)
+    (hdown : Unavailable2 s st) (hc2 : (s.ent u2.id).content = some c2) :
+    (invokeChain sha inc s st).1 = .run c1 (some c2) ∧
+    (invokeChain sha inc s st).2.ent u2.id = s.ent u2.id := by
+  have hr2 : read2 false sha s st u2 = (.run c2, s.ent u2.id) := by
+    rw [read2_eq _ _ _ _ _ hu]; exact node_available _ _ _ _ _ _ c2 hdown hc2
+  have h2 : (read2 false sha s st u2).1 = .run c2 := by rw [hr2]
+  unfold invokeChain
+  rw [invokeChainWith_both _ _ _ _ _ c1 u2 c2 hg h1 hi hu hg2 h2, finish_keep _ _ _ hcl]
+  exact ⟨rfl, by rw [after2_ent_same, hr2]⟩
+
+/-- The availability half of C20 for chains, at full strength: with the network unavailable
+for node 1 and — in whatever way, the spent deadline included — for node 2, cached copies are
+what runs, and the whole cache is left as it is. -/
+theorem C20_chain_available (sha : Content → Sum) (inc : Content → Option Url) (s : RState)
+    (st : CStep) (c1 : Content)
+    (hg : gate st.base = none) (hcl : st.base.flags.clearCache = false)
+    (hu1 : Unavailable st.base) (hc1 : (s.ent st.base.url.id).content = some c1) :
+    (inc c1 = none →
+      (invokeChain sha inc s st).1 = .run c1 none ∧ ∀ v, (invokeChain sha inc s st).2.ent v = s.ent v) ∧
+    (∀ u2 c2, inc c1 = some u2 → u2.id ≠ st.base.url.id → gate2 st.base.flags u2 = none →
+      Unavailable2 s st → (s.ent u2.id).content = some c2 →
+      (invokeChain sha inc s st).1 = .run c1 (some c2) ∧ ∀ v, (invokeChain sha inc s st).2.ent v = s.ent v) := by
+  have hr1 := C20_chain_available_node1 sha s st c1 hu1 hc1
+  have h1 : (read1 false sha s st).1 = .run c1 := by rw [hr1]
+  have hsame1 : ∀ v, (after1 false sha s st).ent v = s.ent v := by
+    intro v
+    by_cases hv : v = st.base.url.id
+    · subst hv; rw [after1_ent_same, hr1]
+    · exact after1_ent_other _ _ _ _ _ hv
+  refine ⟨?_, ?_⟩
+  · intro hi
+    unfold invokeChain
+    rw [invokeChainWith_single _ _ _ _ _ c1 hg h1 hi, finish_keep _ _ _ hcl]
+    exact ⟨rfl, hsame1⟩
+  · intro u2 c2 hi hu hg2 hdown hc2
+    have hr2 : read2 false sha s st u2 = (.run c2, s.ent u2.id) := by
+      rw [read2_eq _ _ _ _ _ hu]; exact node_available _ _ _ _ _ _ c2 hdown hc2
+    have h2 : (read2 false sha s st u2).1 = .run c2 := by rw [hr2]
+    unfold invokeChain
+    rw [invokeChainWith_both _ _ _ _ _ c1 u2 c2 hg h1 hi hu hg2 h2, finish_keep _ _ _ hcl]
+    refine ⟨rfl, fun v => ?_⟩
+    by_cases hv : v = u2.id
+    · subst hv; rw [after2_ent_same, hr2]
+    · rw [after2_ent_other _ _ _ _ _ _ hv]; exact hsame1 v
+
+/-- **C20_chain_deadline**: node 1's server is slower than `--timeout`, so node 1's fetch uses up
+the deadline of the whole invocation; with copies of both nodes in the cache, both run from the
+cache — **whatever node 2's server would have done** (serve new content, refuse, stall) and
+whatever is answered — and nothing is written. -/
+theorem C20_chain_deadline (sha : Content → Sum) (inc : Content → Option Url) (s : RState)
+    (st : CStep) (c1 c2 : Content) (u2 : Url)
+    (hg : gate st.base = none) (hcl : st.base.flags.clearCache = false)
+    (hw : wantsFetch (s.now + st.base.dt) (s.ent st.base.url.id) st.base.flags = true)
+    (hn : net st.base.flags st.base.server = .timedOut)
+    (hc1 : (s.ent st.base.url.id).content = some c1)
+    (hi : inc c1 = some u2) (hu : u2.id ≠ st.base.url.id) (hg2 : gate2 st.base.flags u2 = none)
+    (hc2 : (s.ent u2.id).content = some c2) :
+    (invokeChain sha inc s st).1 = .run c1 (some c2) ∧ ∀ v, (invokeChain sha inc s st).2.ent v = s.ent v := by
+  have hsp : spent1 s st = true := by simp [spent1, spent, hn, hw]
+  exact (C20_chain_available sha inc s st c1 hg hcl (unavailable_of_timedOut _ _ hn) hc1).2
+    u2 c2 hi hu hg2 (unavailable2_of_spent s st hsp) hc2
+
+/-- … over histories: after any history of chain invocations, cached copies of the two nodes are
+approved ones, and they run when the network is unavailable for each in whatever way. -/
+theorem C20_chain_available_reach (sha : Content → Sum) (inc : Content → Option Url) (h : List CStep)
+    (st : CStep) (c1 c2 : Content) (u2 : Url)
+    (hg : gate st.base = none) (hcl : st.base.flags.clearCache = false)
+    (hu1 : Unavailable st.base) (hc1 : ((reachChain sha inc h).ent st.base.url.id).content = some c1)
+    (hi : inc c1 = some u2) (hu : u2.id ≠ st.base.url.id) (hg2 : gate2 st.base.flags u2 = none)
+    (hdown : Unavailable2 (reachChain sha inc h) st)
+    (hc2 : ((reachChain sha inc h).ent u2.id).content = some c2) :
+    (invokeChain sha inc (reachChain sha inc h) st).1 = .run c1 (some c2) ∧
+    ((reachChain sha inc h).ent st.base.url.id).sum = some (sha c1) ∧
+    ((reachChain sha inc h).ent u2.id).sum = some (sha c2) :=
+  ⟨((C20_chain_available sha inc _ st c1 hg hcl hu1 hc1).2 u2 c2 hi hu hg2 hdown hc2).1,
+   inv_reachChain sha inc h _ c1 hc1, inv_reachChain sha inc h _ c2 hc2⟩
+
+/-- the driver's `observeChain` yields the results of `runChainWith` -/
+theorem observeChain_results (legacy sha inc k) (h : List CStep) : ∀ s,
+    (observeChain legacy sha inc k s h).map (·.1) = (runChainWith legacy sha inc s h).1 := by
+  induction h with
+  | nil => intro s; rfl
+  | cons st rest ih => intro s; simp only [observeChain, runChainWith, List.map_cons]; rw [ih]
+
+/-! ## Non-vacuity: concrete chains -/
+
+/-- content 11 (at URL 0) includes URL 1; everything else includes nothing -/
+private def inc1 : Content → Option Url := fun c => if c = 11 then some ⟨1, false⟩ else none
+private def hopServe (c : Content) : Hop := ⟨.serve c, .noTerminal⟩
+/-- download and approve A = 11 (which includes B) and B = 2, `--yes` -/
+private def cGet : CStep := ⟨⟨0, url0, yesFlags, .serve 11, .noTerminal⟩, hopServe 2⟩
+/-- the same command line; A's server is slower than `--timeout`, B's server would serve a NEW version 3 -/
+private def cStallA : CStep := ⟨⟨0, url0, yesFlags, .slow 11, .noTerminal⟩, hopServe 3⟩
+/-- both stall -/
+private def cStallBoth : CStep := ⟨⟨0, url0, yesFlags, .slow 11, .noTerminal⟩, ⟨.slow 3, .noTerminal⟩⟩
+/-- A fine, B refuses -/
+private def cRefuseB : CStep := ⟨⟨0, url0, yesFlags, .serve 11, .noTerminal⟩, ⟨.fail .refused, .noTerminal⟩⟩
+/-- no `--yes`, no terminal: B changed to 3 -/
+private def cChangedB : CStep := ⟨⟨0, url0, noFlags, .serve 11, .noTerminal⟩, hopServe 3⟩
+private def cAcceptB : CStep := ⟨⟨0, url0, noFlags, .serve 11, .decline⟩, ⟨.serve 3, .accept⟩⟩
+private def cOffline : CStep := ⟨⟨0, url0, { noFlags with offline := true }, .serve 12, .noTerminal⟩, hopServe 9⟩
+
+-- node 1 stalls past the timeout and both have cached copies ⇒ both run from the cache, although
+-- node 2's server would have served (unapproved) version 3 at once; the cache is as it was
+example : (runChain id inc1 RState.init [cGet, cStallA, cStallBoth, cRefuseB]).1
+    = [.run 11 (some 2), .run 11 (some 2), .run 11 (some 2), .run 11 (some 2)] := by decide
+example : ((runChain id inc1 RState.init [cGet, cStallA]).2.ent 1).content = some 2 := by decide
+-- hypotheses of `C20_chain_deadline` are met by `cStallA` after `cGet`
+example : gate cStallA.base = none ∧ cStallA.base.flags.clearCache = false ∧
+    wantsFetch ((reachChain id inc1 [cGet]).now + 0) ((reachChain id inc1 [cGet]).ent 0) cStallA.base.flags = true ∧
+    net cStallA.base.flags cStallA.base.server = .timedOut ∧
+    ((reachChain id inc1 [cGet]).ent 0).content = some 11 ∧ inc1 11 = some ⟨1, false⟩ ∧
+    gate2 cStallA.base.flags ⟨1, false⟩ = none ∧ ((reachChain id inc1 [cGet]).ent 1).content = some 2 := by decide
+-- without a copy of node 2 the spent deadline is 108; without one of node 1, node 2 is not read
+example : (runChain id inc1 RState.init [⟨cGet.base, ⟨.fail .refused, .noTerminal⟩⟩, cStallA]).1
+    = [.error 103, .error 108] := by decide
+example : (runChain id inc1 RState.init [cStallA]).1 = [.error 108] := by decide
+-- node 2 changed without approval: 104, nothing runs (node 1's content neither), node 2's copy
+-- stays; offline runs the old pair; node 2's own accepted prompt switches node 2 only
+example : (runChain id inc1 RState.init [cGet, cChangedB, cOffline, cAcceptB, cOffline]).1
+    = [.run 11 (some 2), .error 104, .run 11 (some 2), .run 11 (some 3), .run 11 (some 3)] := by decide
+-- hypotheses of `unapproved2_refused` are met by `cChangedB` after `cGet`
+example : (read1 false id (reachChain id inc1 [cGet]) cChangedB).1 = .run 11 ∧
+    wantsFetch ((reachChain id inc1 [cGet]).now + 0) ((reachChain id inc1 [cGet]).ent 1) cChangedB.base.flags = true ∧
+    net2 (spent1 (reachChain id inc1 [cGet]) cChangedB) cChangedB.base.flags cChangedB.hop.server = .content 3 ∧
+    ((reachChain id inc1 [cGet]).ent 1).sum ≠ some (id 3) ∧
+    approves cChangedB.base.flags cChangedB.hop.answer = false := by decide
+-- first use of the pair with node 2 declined: node 1 is downloaded, approved and cached, node 2
+-- is not, nothing runs
+example : (observeChain false id inc1 2 RState.init [⟨⟨0, url0, noFlags, .serve 11, .accept⟩, ⟨.serve 2, .decline⟩⟩]).map
+    (fun o => (o.1, o.2.map (·.content))) = [(.error 104, [some 11, none])] := by decide
+-- content that includes its own URL: cycle error 110
+example : (runChain id (fun c => if c = 5 then some url0 else none) RState.init
+    [⟨⟨0, url0, yesFlags, .serve 5, .noTerminal⟩, hopServe 1⟩]).1 = [.error 110] := by decide
 
 end Props.C20
